@@ -423,6 +423,10 @@ func handleLoad(params internal.HandlerFuncParams) ([]byte, error) {
 		}
 	}
 
+	// Compile the key and channel patterns the loaded users brought with them:
+	// AuthorizeConnection matches against the compiled patterns.
+	acl.CompileGlobs()
+
 	return []byte(constants.OkResponse), nil
 }
 
